@@ -13,7 +13,8 @@ PID = 'C18'
 
 # ---- behaviours of the state graph ----------------------------------------------------------------------------------
 def succ(edges, n):
-    return [m for _, m in edges.get(n, []) if m != n]
+    """distinct successors (the dump lists a transition once per disjunct of Next that produces it)"""
+    return list(dict.fromkeys(m for _, m in edges.get(n, []) if m != n))
 
 
 def count_paths(edges, init):
